@@ -36,7 +36,7 @@ Fixpoint deref_ids (m : objmap) (fuel : nat) (o : obj) {struct fuel} : list oid 
    its integer (the reference objects passed and the integer object) *)
 Definition sup (m : objmap) (I L : list oid) (x : oid) : Prop :=
   In x I \/
-  (exists id o via d, In id L /\ lookup m id = Some o /\ leads m o via d /\ In x via) \/
+  (exists id o via d, In id L /\ lookup m id = Some o /\ leads m o via d /\ (N.of_nat (length via) <= DEREF_LIMIT)%N /\ In x via) \/
   (exists nd dd c, In nd I /\ lookup m nd = Some (ODict dd) /\ dict_get dd K_Type = Some (OName K_Pages) /\
      dict_get dd K_Count = Some c /\ In x (deref_ids m (N.to_nat DEREF_LIMIT) c)).
 
@@ -365,7 +365,7 @@ Proof.
   destruct Hx as [Hx|[Hx|[Hx|Hx]]].
   - rewrite Rt in Hx. inversion Hx; subst. destruct x; exact Rc.
   - apply Rids. exact Hx.
-  - destruct Hx as [id [o [via [dd [Hid [L [Ld Hv]]]]]]].
+  - destruct Hx as [id [o [via [dd [Hid [L [Ld [_ Hv]]]]]]]].
     apply (reach_leads _ _ o via dd Ld); [|exact Hv]. intros r Hr.
     eapply reach_step; [apply Rids; apply (proj1 leaves_ids); exact Hid | exact L | exact Hr].
   - destruct Hx as [nd [dd [c [Hnd [L [_ [Gc Hv]]]]]]].
@@ -382,6 +382,33 @@ Proof.
   split; [rewrite T1; destruct PD as [ci [cg [cat [Wt _]]]]; exact Wt|]. split; [rewrite T1; reflexivity|]. split.
   - intros x Hx. apply stable_same. apply L1. eapply support_reach; eassumption.
   - intros x o Hx L _. rewrite L1; [exact L | eapply support_reach; eassumption].
+Qed.
+
+(* ---------- the support, computed ---------- *)
+Lemma leads_ids m o via d : leads m o via d -> forall f, (length via <= f)%nat -> deref_ids m f o = via.
+Proof.
+  induction 1 as [d|i g o via d L H IH]; intros f Hf.
+  - destruct f; reflexivity.
+  - destruct f as [|f]; [cbn [length] in Hf; lia|]. cbn [deref_ids]. rewrite L. f_equal. apply IH. cbn [length] in Hf. lia.
+Qed.
+
+Definition support_list (m : objmap) (I L : list oid) : list oid :=
+  I ++ flat_map (fun id => match lookup m id with Some o => deref_ids m (N.to_nat DEREF_LIMIT) o | None => [] end) L
+    ++ flat_map (fun nd => match lookup m nd with
+                           | Some (ODict dd) => match dict_get dd K_Count with
+                                                | Some c => deref_ids m (N.to_nat DEREF_LIMIT) c
+                                                | None => []
+                                                end
+                           | _ => []
+                           end) I.
+
+Lemma sup_in_list m I L x : sup m I L x -> In x (support_list m I L).
+Proof.
+  unfold support_list. intros [H|[H|H]]; apply in_app_iff; [left; exact H | right | right]; apply in_app_iff.
+  - destruct H as [id [o [via [d [Hid [Lo [Ld [Hl Hv]]]]]]]]. left. apply in_flat_map. exists id. split; [exact Hid|].
+    rewrite Lo, (leads_ids m o via d Ld) by (apply limit_len; exact Hl). exact Hv.
+  - destruct H as [nd [dd [c [Hnd [Lo [_ [Gc Hv]]]]]]]. right. apply in_flat_map. exists nd. split; [exact Hnd|].
+    rewrite Lo, Gc. exact Hv.
 Qed.
 
 (* ---------- one step ---------- *)
@@ -492,4 +519,39 @@ Proof.
     apply (IH (fst (step O d o)) (tree_after d t o)); try assumption.
     + apply step_wf; assumption.
     + apply step_alloc; assumption.
+Qed.
+
+(* ---------- non-vacuity: a program on the document of Proofs/EditProofsTreeRef.v (pages 3 and 5 are reference objects, the
+   Counts of 2 and 4 sit behind references) ---------- *)
+Definition tree_prog_ref : list op :=
+  [AddObject (OInt 5); SetObject (15, 0)%N (OInt 7); AddPageContents (11, 0)%N (bs "q Q"); AddXObject (11, 0)%N K_Im1' (15, 0)%N;
+   DeletePages [2%N]; PruneObjects; Save false; Compress; DeletePages [1; 1]%N].
+
+Lemma tree_prog_ref_example :
+  doc_wf tree_doc_ref /\ alloc_ok tree_doc_ref /\ page_doc_ref tree_doc_ref tree_ex_ind /\ hbound tree_ex_ind /\
+  tree_prog_dom_ref O_id tree_doc_ref tree_ex_ind tree_prog_ref /\
+  tree_end O_id tree_doc_ref tree_ex_ind tree_prog_ref = PNode (2,0)%N [PNode (4,0)%N []; PNode (10,0)%N [PLeaf (11,0)%N]] /\
+  page_iter (run_ops O_id tree_doc_ref tree_prog_ref) = [(11,0)%N] /\
+  ~ tree_support tree_doc_ref tree_ex_ind (15,0)%N /\
+  tree_support tree_doc_ref tree_ex_ind (8,0)%N /\ tree_support tree_doc_ref tree_ex_ind (13,0)%N.
+Proof.
+  destruct tree_ref_example as [W [PD [Hh _]]].
+  assert (Out : forall d, let m := d_objects d in
+            dict_get (d_trailer d) K_Root = Some (ORef 1 0) ->
+            forallb (fun y => negb (oid_eqb y (15,0)%N)) (support_list m (ids tree_ex_ind) (leaves tree_ex_ind)) = true ->
+            ~ tree_support d tree_ex_ind (15,0)%N).
+  { intros d m R H [Hs|Hs]; [rewrite R in Hs; discriminate Hs|]. apply sup_in_list in Hs. fold m in Hs.
+    rewrite forallb_forall in H. specialize (H _ Hs). rewrite oid_eqb_refl in H. discriminate H. }
+  split; [exact W|]. split; [|split; [exact PD|split; [exact Hh|]]].
+  - intros id H. cbn in H. repeat (destruct H as [<-|H]; [cbn; lia|]). destruct H.
+  - split; [|split; [vm_compute; reflexivity|split; [vm_compute; reflexivity|split; [|split]]]].
+    + cbn [tree_prog_ref tree_prog_dom_ref tree_op_dom_ref lifted]. repeat (split; [exact I|]).
+      split; [split; [apply Out; vm_compute; reflexivity | vm_compute; discriminate]|].
+      repeat (split; [exact I|]). split; [cbn; intuition discriminate|]. repeat (split; [exact I|]). exact I.
+    + apply Out; vm_compute; reflexivity.
+    + right. right. right. exists (2,0)%N. eexists. exists (ORef 7 0). split; [left; reflexivity|].
+      split; [reflexivity|]. split; [reflexivity|]. split; [reflexivity|]. vm_compute. right. left. reflexivity.
+    + right. right. left. exists (5,0)%N, (ORef 12 0), [(12,0); (13,0)]%N. eexists. split; [cbn; tauto|].
+      split; [reflexivity|]. split; [|split; [vm_compute; discriminate | right; left; reflexivity]].
+      eapply LRef; [reflexivity|]. eapply LRef; [reflexivity|]. constructor.
 Qed.
